@@ -114,7 +114,9 @@ class QTensorLinear(torch.autograd.Function):
                 # The scale of an input quantized per-axis cannot be factored out of the matmul
                 input = input.dequantize()
             if isinstance(input, QBytesTensor):
-                output = torch.ops.quanto.qbytes_mm(input._data, other._data, input._scale * other._scale)
+                # Evaluate the output scale in float32 as the product of two scales may underflow
+                output_scale = input._scale.to(torch.float32) * other._scale.to(torch.float32)
+                output = torch.ops.quanto.qbytes_mm(input._data, other._data, output_scale).to(other.dtype)
             else:
                 output = torch.ops.quanto.qbytes_mm(input, other._data, other._scale)
         else:
